@@ -382,7 +382,8 @@ var basePool = []string{"http://example.org/foo/bar", "http://u:p@h:8080/a/b/c?q
 	"file:///C:/a/b", "file:///C|/a", "file:///c:", "file:///c:/", "file://h/C:/x", "file://h/x/y", "file:///", "file:///x/y?q#f", "file:", "file://localhost/x", "file:///C:", "file:/C:/d/e", "file:///a/C:/b",
 	"sc://h/p/q", "sc://u@h:1/p?q#f", "sc:/p/q", "sc:///p", "sc://", "sc:/", "sc:/.//p", "a+b://h", "sc://h", "sc://h?q", "sc:/p?q#f",
 	"sc:opaque", "mailto:a@b", "sc:opaque?q#f", "data:text/plain,x ", "sc:", "javascript:alert(1) #f", "sc:   #f", "data:  ?q#f", "sc: ?q", "sc:x  ?#",
-	"http://1.2.3.4/x", "http://[::1]:8/x", "http://h/a%2fb/c", "http://h/a/b/", "http://h//", "http://h/a//b", "http://h/?", "http://h/#", "http://h/?#", "https://h:443/x", "http://h/a/b?c/d#e/f"}
+	"http://1.2.3.4/x", "http://[::1]:8/x", "http://h/a%2fb/c", "http://h/a/b/", "http://h//", "http://h/a//b", "http://h/?", "http://h/#", "http://h/?#", "https://h:443/x", "http://h/a/b?c/d#e/f",
+	"http://h/p?flag", "http://h/p?a=%41&&b&", "sc://h/p?k=%7e&x", "mailto:a@b?subject", "file:///x?a+b=c%20d&"}
 
 func genBase(r *Rand) string {
 	if r.P(70) {
